@@ -300,6 +300,11 @@ def _ioflo_site(tb):
     return site
 
 
+class _EndCase(BaseException):
+    """Raised to end a case after a rename failure in the middle of the rotate chain (the copies are then partly shifted;
+    what the directory must hold from there on is not modelled)."""
+
+
 class _OsProxy(object):
     def __init__(self, real, hook, fault=None):
         self._real = real
@@ -342,6 +347,8 @@ class Runner(object):
         self.house = self.logger = self.log = self.share = None
         self.faults = set(case.get("renamefault") or ())   # indices of the Log.cycle invocations whose first rename fails
         self.fault_armed = False
+        self.faultpos = int(case.get("faultpos") or 0)     # which rename of the chain fails (0 = the first)
+        self.renames_seen = 0
         self.faults_injected = 0
         self.logged = False         # this Log object has written a record
         self.pending = False        # stamped write since the last record
@@ -427,6 +434,7 @@ class Runner(object):
             logical = len(dm.text(0))
             me.in_cycle = True
             me.fault_armed = (me.cycle_calls - 1) in me.faults
+            me.renames_seen = 0
             before = me.faults_injected
             try:
                 r = orig_cycle(size=size)
@@ -453,6 +461,19 @@ class Runner(object):
                     me.fail("rotated-below-size-threshold", "main file rotated with %d bytes on disk (logical %d) < threshold %d"
                             % (actual, logical, size))
                 dm.shift()
+            elif faulted and me.faultpos:
+                # a rename in the middle of the chain failed: older copies were moved, the main file was not - it goes on
+                # with everything it held (the union check at the hooks inside Log.cycle has seen every step); the case ends
+                try:
+                    with open(log.path, "r") as fh:
+                        disk = fh.read()
+                except OSError as ex:
+                    disk = "<unreadable: %r>" % (ex,)
+                if not disk.startswith(dm.text(0, dm.gmain) if not dm.files[0]["lines"] else dm.text(0)):
+                    me.fail("main-file-lost-after-failed-rotation", "rename number %d of the rotate chain failed (injected EACCES), so the main "
+                            "file was never moved; afterwards it holds %r instead of the %d records written to it (%r)"
+                            % (me.faultpos + 1, disk[-80:], len(dm.files[0]["lines"]), dm.text(0)[-80:]))
+                raise _EndCase()
             elif faulted:
                 pass    # the first rename of the chain failed: nothing moved, the main file goes on (no rotation)
             elif log.paths and (not size or logical >= size):
@@ -480,7 +501,10 @@ class Runner(object):
 
         def fault():
             if me.fault_armed:
-                me.fault_armed = False      # only the first rename of that chain
+                if me.renames_seen < me.faultpos:
+                    me.renames_seen += 1        # the renames before the chosen position succeed
+                    return False
+                me.fault_armed = False          # only one rename of that chain
                 me.faults_injected += 1
                 return True
             return False
@@ -524,6 +548,8 @@ class Runner(object):
                 self.logger.runner.send(g.ABORT)
                 self.dm.closed = True
                 self._tick_end()
+        except _EndCase:
+            pass
         except Exception as ex:
             self.fail("raises-%s@%s" % (type(ex).__name__, _ioflo_site(ex.__traceback__)), "driving the logger raised %r" % (ex,))
         finally:
@@ -784,6 +810,8 @@ def case_strategy(kill=False):
             # injected fault: the first os.rename of the rotate chain of these Log.cycle invocations fails (EACCES);
             # nothing has moved then, the rotation is abandoned and no record may be lost
             case["renamefault"] = sorted(draw(st.lists(st.integers(0, 6), min_size=1, max_size=3, unique=True)))
+            # usually the first rename of the chain fails; sometimes a later one (older copies already moved)
+            case["faultpos"] = draw(st.sampled_from([0, 0, 1, 1, 2]))
         return case
 
     return build()
